@@ -291,3 +291,39 @@ def escaped(exc, culprit, detail, classes=()):
         f"{type(exc).__name__}: {exc} escaped {culprit}; {detail} :: " + "".join(traceback.format_exception(exc))[-900:],
         classes=classes,
     )
+
+
+# ---------------------------------------------------------------------------------------------------------------
+# Injected exceptions of various types (the type of a raised exception must not matter to a scheduler)
+
+class CustomError(Exception):
+    """A user-defined Exception subclass."""
+
+
+class FalsyError(Exception):
+    """An exception object that is falsy (`if ex:` is False)."""
+
+    def __len__(self):
+        return 0
+
+
+EXC_TYPES = ("tagged", "type", "value", "key", "attr", "stopiter", "custom", "falsy")
+
+
+def make_exc(kind, tag):
+    """Fresh exception instance of the named type carrying `.tag` (its stable identity in logs)."""
+    from .values import Tagged
+
+    cls = {
+        "tagged": Tagged,
+        "type": TypeError,
+        "value": ValueError,
+        "key": KeyError,
+        "attr": AttributeError,
+        "stopiter": StopIteration,
+        "custom": CustomError,
+        "falsy": FalsyError,
+    }[kind]
+    ex = cls(tag)
+    ex.tag = tag
+    return ex
